@@ -5,17 +5,16 @@ CONSTANTS
   VarNames = {"v"}
   RefChoices <- MCRefChoices
   KindChoices <- MCKindChoices
-  MaxEd = 1
-  MaxVal = 1
-  MaxObjs = 6
-  MaxEvents = 4
+  MaxEd = 2
+  MaxVal = 2
+  MaxObjs = 12
+  MaxEvents = 10
   KF_DefaultsNotHashed = FALSE
-  KF_AdoptCached = TRUE
+  KF_AdoptCached = FALSE
   KF_AliasBlind = FALSE
   KF_OneRulePerKey = FALSE
 INIT Init
-NEXT Next
+NEXT SimNext
 INVARIANT Coherent
 INVARIANT Fresh
-INVARIANT Deterministic
 CHECK_DEADLOCK FALSE
